@@ -16,13 +16,19 @@ def finT (a : Attempt) : Nat := a.fin.getD 0
 /-- finished with an error -/
 def finErr (a : Attempt) : Bool := a.fin.isSome && isErr a.out
 
-/-- spacing of a newest-first list of start instants: in latency mode attempt number `n`
-starts at least `delay n` after attempt `n - 1`; in parallel mode (`delay 1 = 0`) all at once -/
+/-- spacing of a newest-first list of start instants (milliseconds; delays are microseconds): in
+latency mode attempt number `n` starts at least `delay n` after attempt `n - 1`; in parallel mode
+(`delay 1 = 0`) all at once -/
 def SpacedT (cfg : Cfg) : List Nat → Prop
   | [] => True
   | [_] => True
   | b :: a :: tl =>
-      (if cfg.delay 1 = 0 then b = a else a + cfg.delay (tl.length + 1) ≤ b) ∧ SpacedT cfg (a :: tl)
+      (if cfg.delay 1 = 0 then b = a else a * 1000 + cfg.delay (tl.length + 1) ≤ b * 1000) ∧
+        SpacedT cfg (a :: tl)
+
+/-- the timer never fires before the configured delay has passed -/
+theorem delay_le_timer (cfg : Cfg) (n : Nat) : cfg.delay n ≤ timerMs cfg n * 1000 := by
+  unfold timerMs; omega
 
 /-! ## markFin / finishCall -/
 
@@ -37,7 +43,7 @@ theorem markFin_some {now k : Nat} {l : List Attempt} {a' : Attempt} {l' : List 
     split at h
     · rename_i hc
       simp only [Option.some.injEq, Prod.mk.injEq] at h
-      exact ⟨[], x, tl, rfl, by simp [← h.2, ← h.1], hc.2.1, hc.1, hc.2.2.1, hc.2.2.2, h.1.symm⟩
+      exact ⟨[], x, tl, rfl, by simp [← h.2, ← h.1], hc.2.1, hc.1, hc.2.2.1, hc.2.2.2.1, h.1.symm⟩
     · split at h
       · rename_i a2 tl2 heq
         simp only [Option.some.injEq, Prod.mk.injEq] at h
@@ -71,7 +77,7 @@ structure StartInv (cfg : Cfg) (now : Nat) (cl : Call) : Prop where
   spaced : SpacedT cfg (starts cl)
   startLe : ∀ t ∈ starts cl, t ≤ now
   lat : cl.phase = .latency → cfg.delay 1 ≠ 0 ∧ ∃ t tl, starts cl = t :: tl ∧
-        (tl.length + 1 < cfg.max → cl.nextHedgeAt = t + cfg.delay (tl.length + 1))
+        (tl.length + 1 < cfg.max → cl.nextHedgeAt = t + timerMs cfg (tl.length + 1))
   drain : cl.phase = .drain → (starts cl).length = cfg.max
 
 structure ChanInv (cfg : Cfg) (now : Nat) (cl : Call) : Prop where
@@ -313,6 +319,12 @@ theorem finishCall_plan (now k c : Nat) (cl : Call) : (finishCall now k c cl).1.
   · have : (finishCall now k c cl).1 = finMove now cl pre a post := by rw [he]; rfl
     rw [this, finMove_plan]
 
+theorem finishCall_result (now k c : Nat) (cl : Call) : (finishCall now k c cl).1.result = cl.result := by
+  rcases finishCall_cases now k c cl with he | ⟨pre, a, post, _, _, _, _, _, he⟩
+  · rw [he]
+  · have : (finishCall now k c cl).1 = finMove now cl pre a post := by rw [he]; rfl
+    rw [this, finMove_result]
+
 theorem finishCall_length (now k c : Nat) (cl : Call) :
     (finishCall now k c cl).1.attempts.length = cl.attempts.length := by
   have := congrArg List.length (finishCall_starts now k c cl)
@@ -545,6 +557,14 @@ theorem ResInv_finishCall {cfg now} {cl : Call} (k c : Nat) (h : ResInv cfg now 
 
 /-! ## starting attempts -/
 
+def callOf (c : Nat) : Ev → Option Nat
+  | .innerCall c' k => if c' = c then some k else none
+  | _ => none
+
+/-- serials of the `inner_call c _` events of a log, in order -/
+def callsOf (c : Nat) (log : List Ev) : List Nat := log.filterMap (callOf c)
+
+
 theorem ChanInv_push {cfg now} {cl : Call} {a : Attempt} (h : ChanInv cfg now cl)
     (hp : cl.phase ≠ .fresh) (ha : a.fin = none) :
     ChanInv cfg now { cl with attempts := a :: cl.attempts } := by
@@ -574,22 +594,20 @@ theorem ResInv_push {cfg now} {cl : Call} {a : Attempt} (h : ResInv cfg now cl) 
     ResInv cfg now { cl with attempts := a :: cl.attempts } :=
   ⟨h.noRes, fun hq => absurd hq hp⟩
 
-theorem startAttempt_cl (now c : Nat) (w : W) :
-    (startAttempt now c w).cl =
-      if (w.cl.plan.getD w.cl.attempts.length ⟨0, .ok⟩).lat = 0
+theorem callAttempt_cl (now c : Nat) (w : W) :
+    (callAttempt now c w).cl =
+      if (w.cl.plan.getD (nCalled w.cl) ⟨0, .ok⟩).lat = 0
       then (finishCall now w.serial c (pushAttempt now w).cl).1 else (pushAttempt now w).cl := by
-  unfold startAttempt
+  unfold callAttempt
   split <;> simp_all
 
-theorem startAttempt_serial (now c : Nat) (w : W) : (startAttempt now c w).serial = w.serial + 1 := rfl
-
-theorem startAttempt_spec {cfg now} (c : Nat) {w : W} (h1 : ChanInv cfg now w.cl) (h2 : ResInv cfg now w.cl)
+theorem callAttempt_spec {cfg now} (c : Nat) {w : W} (h1 : ChanInv cfg now w.cl) (h2 : ResInv cfg now w.cl)
     (hl : live w.cl.phase = true) :
-    ChanInv cfg now (startAttempt now c w).cl ∧ ResInv cfg now (startAttempt now c w).cl ∧
-    (startAttempt now c w).cl.phase = w.cl.phase ∧
-    starts (startAttempt now c w).cl = now :: starts w.cl ∧
-    (startAttempt now c w).cl.nextHedgeAt = w.cl.nextHedgeAt ∧
-    (startAttempt now c w).cl.plan = w.cl.plan := by
+    ChanInv cfg now (callAttempt now c w).cl ∧ ResInv cfg now (callAttempt now c w).cl ∧
+    (callAttempt now c w).cl.phase = w.cl.phase ∧
+    starts (callAttempt now c w).cl = now :: starts w.cl ∧
+    (callAttempt now c w).cl.nextHedgeAt = w.cl.nextHedgeAt ∧
+    (callAttempt now c w).cl.plan = w.cl.plan := by
   have hnf : w.cl.phase ≠ .fresh := by intro hq; rw [hq] at hl; cases hl
   have hnd : w.cl.phase ≠ .done := by intro hq; rw [hq] at hl; cases hl
   have p1 : ChanInv cfg now (pushAttempt now w).cl := ChanInv_push h1 hnf rfl
@@ -598,11 +616,48 @@ theorem startAttempt_spec {cfg now} (c : Nat) {w : W} (h1 : ChanInv cfg now w.cl
   have p4 : starts (pushAttempt now w).cl = now :: starts w.cl := rfl
   have p5 : (pushAttempt now w).cl.nextHedgeAt = w.cl.nextHedgeAt := rfl
   have p6 : (pushAttempt now w).cl.plan = w.cl.plan := rfl
-  rw [startAttempt_cl]
+  rw [callAttempt_cl]
   split
   · exact ⟨ChanInv_finishCall _ _ p1, ResInv_finishCall _ _ p2, by rw [finishCall_phase, p3],
       by rw [finishCall_starts, p4], by rw [finishCall_nextHedgeAt, p5], by rw [finishCall_plan, p6]⟩
   · exact ⟨p1, p2, p3, p4, p5, p6⟩
+
+theorem pushWaiting_spec {cfg now} (wt : Wait) {w : W} (h1 : ChanInv cfg now w.cl) (h2 : ResInv cfg now w.cl)
+    (hl : live w.cl.phase = true) :
+    ChanInv cfg now (pushWaiting now wt w).cl ∧ ResInv cfg now (pushWaiting now wt w).cl ∧
+    (pushWaiting now wt w).cl.phase = w.cl.phase ∧
+    starts (pushWaiting now wt w).cl = now :: starts w.cl ∧
+    (pushWaiting now wt w).cl.nextHedgeAt = w.cl.nextHedgeAt ∧
+    (pushWaiting now wt w).cl.plan = w.cl.plan := by
+  have hnf : w.cl.phase ≠ .fresh := by intro hq; rw [hq] at hl; cases hl
+  have hnd : w.cl.phase ≠ .done := by intro hq; rw [hq] at hl; cases hl
+  exact ⟨ChanInv_push h1 hnf rfl, ResInv_push h2 hnd, rfl, rfl, rfl, rfl⟩
+
+/-- the three shapes of starting an attempt: called at once (after an optional readiness event), or waiting -/
+theorem startAttempt_cases (now c : Nat) (w : W) :
+    (∃ evs, startAttempt now c w = callAttempt now c { w with evs := w.evs ++ evs } ∧
+        ∀ c', callsOf c' evs = []) ∨
+    (∃ wt e, wt ≠ Wait.no ∧
+        startAttempt now c w = pushWaiting now wt { w with evs := w.evs ++ [Ev.raw e] }) := by
+  unfold startAttempt
+  split
+  · left; exact ⟨[], by simp, fun _ => rfl⟩
+  · rename_i d _
+    split
+    · left; exact ⟨[warmEv c w.cl.attempts.length (some d)], rfl, fun _ => rfl⟩
+    · right; exact ⟨.till (now + d), _, by simp, rfl⟩
+  · right; exact ⟨.forever, _, by simp, rfl⟩
+
+theorem startAttempt_spec {cfg now} (c : Nat) {w : W} (h1 : ChanInv cfg now w.cl) (h2 : ResInv cfg now w.cl)
+    (hl : live w.cl.phase = true) :
+    ChanInv cfg now (startAttempt now c w).cl ∧ ResInv cfg now (startAttempt now c w).cl ∧
+    (startAttempt now c w).cl.phase = w.cl.phase ∧
+    starts (startAttempt now c w).cl = now :: starts w.cl ∧
+    (startAttempt now c w).cl.nextHedgeAt = w.cl.nextHedgeAt ∧
+    (startAttempt now c w).cl.plan = w.cl.plan := by
+  rcases startAttempt_cases now c w with ⟨evs, he, _⟩ | ⟨wt, e, _, he⟩
+  · rw [he]; exact callAttempt_spec (cfg := cfg) c (w := { w with evs := w.evs ++ evs }) h1 h2 hl
+  · rw [he]; exact pushWaiting_spec (cfg := cfg) wt (w := { w with evs := w.evs ++ [Ev.raw e] }) h1 h2 hl
 
 theorem SpacedT_const (cfg : Cfg) (now : Nat) : ∀ l : List Nat, (∀ t ∈ l, t = now) →
     (cfg.delay 1 = 0 ∨ l.length ≤ 1) → SpacedT cfg l
@@ -633,8 +688,10 @@ theorem spawnLat_inv (cfg : Cfg) (now c : Nat) : ∀ (fuel : Nat) (w : W),
       have hlen : w.cl.attempts.length = tl.length + 1 := by rw [length_eq_starts, hst]; rfl
       have hn : (startAttempt now c w).cl.attempts.length = tl.length + 2 := by
         rw [length_eq_starts, q4, hst]; rfl
-      have hdue : t + cfg.delay (tl.length + 1) ≤ now := by
-        have := hnh (by omega); omega
+      have hdue : t * 1000 + cfg.delay (tl.length + 1) ≤ now * 1000 := by
+        have := hnh (by omega)
+        have := delay_le_timer cfg (tl.length + 1)
+        omega
       have hsp : SpacedT cfg (now :: t :: tl) := by
         refine ⟨?_, by rw [← hst]; exact h.st.spaced⟩
         rw [if_neg hd]; exact hdue
@@ -657,7 +714,7 @@ theorem spawnLat_inv (cfg : Cfg) (now c : Nat) : ∀ (fuel : Nat) (w : W),
           · intro _
             refine ⟨hd, now, t :: tl, by show starts (startAttempt now c w).cl = _; rw [q4, hst], ?_⟩
             intro _
-            show now + cfg.delay (startAttempt now c w).cl.attempts.length = now + cfg.delay ((t :: tl).length + 1)
+            show now + timerMs cfg (startAttempt now c w).cl.attempts.length = now + timerMs cfg ((t :: tl).length + 1)
             rw [hn]; rfl
           · intro hq
             have hq' : (startAttempt now c w).cl.phase = .drain := hq
@@ -704,7 +761,7 @@ theorem pollFresh_inv {cfg : Cfg} {now : Nat} (c : Nat) {w : W} (hmax : 1 ≤ cf
   unfold pollFresh
   split
   · rename_i hg
-    have c0 : ChanInv cfg now { w.cl with phase := .latency, nextHedgeAt := now + cfg.delay 1 } := by
+    have c0 : ChanInv cfg now { w.cl with phase := .latency, nextHedgeAt := now + timerMs cfg 1 } := by
       constructor
       · intro a hx; rw [ha] at hx; cases hx
       · show w.cl.chan.Pairwise _; rw [hc]; exact List.Pairwise.nil
@@ -715,13 +772,13 @@ theorem pollFresh_inv {cfg : Cfg} {now : Nat} (c : Nat) {w : W} (hmax : 1 ≤ cf
         show w.cl.errors + w.cl.chan.countP _ = w.cl.attempts.countP finErr ∧ w.cl.errors < cfg.max
         rw [ha, hc, he]; simp; omega
       · intro hq; cases hq
-    have r0 : ResInv cfg now { w.cl with phase := .latency, nextHedgeAt := now + cfg.delay 1 } :=
+    have r0 : ResInv cfg now { w.cl with phase := .latency, nextHedgeAt := now + timerMs cfg 1 } :=
       ⟨fun _ => hres, fun hq => by cases hq⟩
     obtain ⟨q1, q2, q3, q4, q5, _⟩ :=
       startAttempt_spec (cfg := cfg) c
-        (w := { w with cl := { w.cl with phase := .latency, nextHedgeAt := now + cfg.delay 1 } }) c0 r0 rfl
+        (w := { w with cl := { w.cl with phase := .latency, nextHedgeAt := now + timerMs cfg 1 } }) c0 r0 rfl
     have q4' : starts (startAttempt now c
-        { w with cl := { w.cl with phase := .latency, nextHedgeAt := now + cfg.delay 1 } }).cl = [now] := by
+        { w with cl := { w.cl with phase := .latency, nextHedgeAt := now + timerMs cfg 1 } }).cl = [now] := by
       rw [q4]; show now :: starts w.cl = [now]; rw [hst]
     refine ⟨?_, q1, q2⟩
     constructor
@@ -810,7 +867,8 @@ theorem CallInv.mono {cfg : Cfg} {now now' : Nat} {cl : Call} (h : CallInv cfg n
     obtain ⟨t, r, q1, q2, q3, q4⟩ := h.rs.res hp
     exact ⟨t, r, q1, Nat.le_trans q2 hle, q3, q4⟩
 
-theorem CallInv_new (cfg : Cfg) (now : Nat) (plan : List Step) : CallInv cfg now { plan := plan } := by
+theorem CallInv_new (cfg : Cfg) (now : Nat) (plan : List Step) (warm : List (Option Nat)) :
+    CallInv cfg now { plan := plan, warm := warm } := by
   refine ⟨⟨Nat.zero_le _, trivial, ?_, ?_, ?_⟩, ⟨?_, List.Pairwise.nil, ?_, ?_, ?_, ?_, ?_⟩, ⟨fun _ => rfl, ?_⟩⟩
   · intro t ht; cases ht
   · intro hq; cases hq
@@ -877,34 +935,195 @@ theorem finishOne_inv {cfg : Cfg} {s : State} (k : Nat) (h : Inv cfg s) : Inv cf
   exact ⟨hq'.st.congr (finishCall_phase ..) (finishCall_starts ..) (finishCall_nextHedgeAt ..),
     ChanInv_finishCall _ _ hq'.ch, ResInv_finishCall _ _ hq'.rs⟩
 
-theorem foldl_finishOne_inv {cfg : Cfg} (ks : List Nat) : ∀ s : State, Inv cfg s → Inv cfg (ks.foldl finishOne s) := by
+/-! ## a waiting attempt calls the inner service -/
+
+theorem markCall_some {now i k : Nat} {st : Step} {l l' : List Attempt} (h : markCall now i k st l = some l') :
+    ∃ pre a post, l = pre ++ a :: post ∧ a.fin = none ∧ a.wait ≠ .no ∧
+      l' = pre ++ a.call now k st :: post := by
+  induction l generalizing l' with
+  | nil => simp [markCall] at h
+  | cons x tl ih =>
+    unfold markCall at h
+    split at h
+    · rename_i hc
+      simp only [Option.some.injEq] at h
+      refine ⟨[], x, tl, rfl, hc.2.2, ?_, by simp [← h]⟩
+      intro hw; rw [hw] at hc; simp [readyBy] at hc
+    · split at h
+      · rename_i tl2 heq
+        simp only [Option.some.injEq] at h
+        obtain ⟨pre, a, post, h1, h2, h3, h4⟩ := ih heq
+        exact ⟨x :: pre, a, post, by simp [h1], h2, h3, by simp [← h, h4]⟩
+      · simp at h
+
+/-- an attempt that has not finished is replaced by another one that has not finished -/
+theorem ChanInv_swap {cfg now} {cl : Call} {pre post : List Attempt} {a a' : Attempt} (h : ChanInv cfg now cl)
+    (hatt : cl.attempts = pre ++ a :: post) (hf : a.fin = none) (hf' : a'.fin = none) :
+    ChanInv cfg now { cl with attempts := pre ++ a' :: post } := by
+  have memOld : ∀ b, b ∈ pre ∨ b ∈ post → b ∈ cl.attempts := by
+    intro b hb; rw [hatt]; simp only [List.mem_append, List.mem_cons]
+    rcases hb with hb | hb
+    · exact Or.inl hb
+    · exact Or.inr (Or.inr hb)
+  have oldSplit : ∀ b ∈ cl.attempts, b.fin.isSome = true → b ∈ pre ∨ b ∈ post := by
+    intro b hb hs; rw [hatt] at hb; simp only [List.mem_append, List.mem_cons] at hb
+    rcases hb with hb | hb | hb
+    · exact Or.inl hb
+    · subst hb; simp [hf] at hs
+    · exact Or.inr hb
+  have newSplit : ∀ b ∈ pre ++ a' :: post, b.fin.isSome = true → b ∈ pre ∨ b ∈ post := by
+    intro b hb hs; simp only [List.mem_append, List.mem_cons] at hb
+    rcases hb with hb | hb | hb
+    · exact Or.inl hb
+    · subst hb; simp [hf'] at hs
+    · exact Or.inr hb
+  have memNew : ∀ b, b ∈ pre ∨ b ∈ post → b ∈ pre ++ a' :: post := by
+    intro b hb; simp only [List.mem_append, List.mem_cons]
+    rcases hb with hb | hb
+    · exact Or.inl hb
+    · exact Or.inr (Or.inr hb)
+  have fa : finErr a = false := by simp [finErr, hf]
+  have fa' : finErr a' = false := by simp [finErr, hf']
+  have cnt : (pre ++ a' :: post).countP finErr = cl.attempts.countP finErr := by
+    rw [hatt]; simp [List.countP_append, fa, fa']
+  constructor
+  · intro b hb tf hbf
+    exact h.finOk b (memOld b (newSplit b hb (by simp [hbf]))) tf hbf
+  · exact h.sorted
+  · intro m hm
+    obtain ⟨h1, h2, h3⟩ := h.chanMem m hm
+    exact ⟨memNew m (oldSplit m h1 h2), h2, h3⟩
+  · intro hl b hb hok hs
+    exact h.okIn hl b (memOld b (newSplit b hb hs)) hok hs
+  · exact h.recvdErr
+  · intro hp
+    obtain ⟨h1, h2⟩ := h.count hp
+    refine ⟨?_, h2⟩
+    show cl.errors + cl.chan.countP _ = (pre ++ a' :: post).countP finErr
+    rw [cnt]; exact h1
+  · intro hp
+    have := (h.fresh hp).1; rw [hatt] at this; simp at this
+
+theorem starts_swap {cl : Call} {pre post : List Attempt} {a a' : Attempt}
+    (hatt : cl.attempts = pre ++ a :: post) (hs : a'.startAt = a.startAt) :
+    starts { cl with attempts := pre ++ a' :: post } = starts cl := by
+  simp [starts, hatt, hs]
+
+theorem ResInv_swap {cfg now} {cl : Call} {pre post : List Attempt} {a a' : Attempt} (h : ResInv cfg now cl)
+    (hatt : cl.attempts = pre ++ a :: post) (hf : a.fin = none) (hf' : a'.fin = none)
+    (hs : a'.startAt = a.startAt) : ResInv cfg now { cl with attempts := pre ++ a' :: post } := by
+  constructor
+  · exact h.noRes
+  · intro hp
+    obtain ⟨t, r, h1, h2, h3, h4⟩ := h.res hp
+    refine ⟨t, r, h1, h2, by rw [starts_swap hatt hs]; exact h3, ?_⟩
+    cases r <;> try exact trivial
+    · rename_i v
+      obtain ⟨w, hw, hk, ho, tf, hwf, hd, htf, hmin⟩ := h4
+      refine ⟨w, ?_, hk, ho, tf, hwf, hd, htf, ?_⟩
+      · show w ∈ pre ++ a' :: post
+        rw [hatt] at hw
+        simp only [List.mem_append, List.mem_cons] at hw ⊢
+        rcases hw with q | q | q
+        · exact Or.inl q
+        · subst q; simp [hf] at hwf
+        · exact Or.inr (Or.inr q)
+      · intro b hb hbo tb hbt
+        have hb' : b ∈ pre ++ a' :: post := hb
+        simp only [List.mem_append, List.mem_cons] at hb'
+        refine hmin b ?_ hbo tb hbt
+        rw [hatt]; simp only [List.mem_append, List.mem_cons]
+        rcases hb' with q | q | q
+        · exact Or.inl q
+        · subst q; simp [hf'] at hbt
+        · exact Or.inr (Or.inr q)
+    · obtain ⟨_, hall⟩ := h4
+      obtain ⟨tf, htf, _⟩ := hall a (by rw [hatt]; simp)
+      simp [hf] at htf
+
+/-- the two shapes of a readiness step -/
+theorem readyCall_cases (now c i : Nat) (w : W) :
+    readyCall now c i w = w ∨
+    ∃ pre a post a', w.cl.attempts = pre ++ a :: post ∧ a.fin = none ∧ a.wait ≠ .no ∧ a'.fin = none ∧
+      a'.startAt = a.startAt ∧ a'.wait = .no ∧ a'.k = w.serial ∧
+      (readyCall now c i w).serial = w.serial + 1 ∧
+      ((readyCall now c i w).cl = { w.cl with attempts := pre ++ a' :: post } ∧
+         (readyCall now c i w).evs = w.evs ++ [.innerCall c w.serial] ∨
+       (readyCall now c i w).cl = (finishCall now w.serial c { w.cl with attempts := pre ++ a' :: post }).1 ∧
+         (readyCall now c i w).evs = w.evs ++ [.innerCall c w.serial] ++
+           (finishCall now w.serial c { w.cl with attempts := pre ++ a' :: post }).2) := by
+  unfold readyCall
+  dsimp only
+  split
+  · left; rfl
+  · rename_i l' heq
+    obtain ⟨pre, a, post, h1, h2, h3, h4⟩ := markCall_some heq
+    right
+    subst h4
+    refine ⟨pre, a, post, a.call now w.serial (w.cl.plan.getD (nCalled w.cl) ⟨0, .ok⟩),
+      h1, h2, h3, h2, rfl, rfl, rfl, rfl, ?_⟩
+    split
+    · right; exact ⟨rfl, rfl⟩
+    · left; exact ⟨rfl, by simp⟩
+
+theorem readyCall_inv {cfg now} (c i : Nat) {w : W} (h : CallInv cfg now w.cl) :
+    CallInv cfg now (readyCall now c i w).cl ∧ (readyCall now c i w).cl.phase = w.cl.phase ∧
+    starts (readyCall now c i w).cl = starts w.cl ∧ (readyCall now c i w).cl.result = w.cl.result := by
+  rcases readyCall_cases now c i w with he | ⟨pre, a, post, a', hatt, hf, _, hf', hs, _, _, _, he⟩
+  · rw [he]; exact ⟨h, rfl, rfl, rfl⟩
+  · have hst := starts_swap (cl := w.cl) (a' := a') hatt hs
+    have h0 : CallInv cfg now { w.cl with attempts := pre ++ a' :: post } :=
+      ⟨h.st.congr rfl hst rfl, ChanInv_swap h.ch hatt hf hf', ResInv_swap h.rs hatt hf hf' hs⟩
+    rcases he with ⟨he, _⟩ | ⟨he, _⟩
+    · rw [he]; exact ⟨h0, rfl, hst, rfl⟩
+    · rw [he]
+      exact ⟨CallInv_finishCall _ _ h0, by rw [finishCall_phase], by rw [finishCall_starts, hst],
+        by rw [finishCall_result]⟩
+
+theorem readyOne_now (s : State) (c i : Nat) : (readyOne s c i).now = s.now := by
+  unfold readyOne; split <;> rfl
+
+theorem readyOne_inv {cfg : Cfg} {s : State} (c i : Nat) (h : Inv cfg s) : Inv cfg (readyOne s c i) := by
+  unfold readyOne
+  split
+  · exact h
+  · rename_i cl hl
+    obtain ⟨c', hm⟩ := lookup_mem hl
+    exact Inv_setCall h (readyCall_inv (w := { cl := cl, serial := s.serial }) c i (h _ hm)).1 _ rfl _ rfl rfl
+
+theorem fireOne_inv {cfg : Cfg} {s : State} (f : Fire) (h : Inv cfg s) : Inv cfg (fireOne s f) := by
+  cases f with
+  | done k => exact finishOne_inv k h
+  | rdy c i => exact readyOne_inv c i h
+
+theorem foldl_fireOne_inv {cfg : Cfg} (ks : List Fire) : ∀ s : State, Inv cfg s → Inv cfg (ks.foldl fireOne s) := by
   induction ks with
   | nil => intro s h; exact h
-  | cons k tl ih => intro s h; exact ih _ (finishOne_inv k h)
+  | cons k tl ih => intro s h; exact ih _ (fireOne_inv k h)
 
-theorem advS_inv {cfg : Cfg} {s : State} (ms : Nat) (order : List Nat) (h : Inv cfg s) :
+theorem advS_inv {cfg : Cfg} {s : State} (ms : Nat) (order : List Fire) (h : Inv cfg s) :
     Inv cfg (advS s ms order) := by
   have h1 : Inv cfg { s with now := s.now + ms } := fun p hp => (h p hp).mono (Nat.le_add_right _ _)
   unfold advS
   dsimp only
   split
-  · exact foldl_finishOne_inv _ _ h1
-  · exact foldl_finishOne_inv _ _ h1
+  · exact foldl_fireOne_inv _ _ h1
+  · exact foldl_fireOne_inv _ _ h1
 
-theorem arriveS_inv {cfg : Cfg} {s : State} (c : Nat) (plan : List Step) (h : Inv cfg s) :
-    Inv cfg (arriveS s c plan) := by
+theorem arriveS_inv {cfg : Cfg} {s : State} (c : Nat) (plan : List Step) (warm : List (Option Nat))
+    (h : Inv cfg s) : Inv cfg (arriveS s c plan warm) := by
   unfold arriveS
   split
   · exact h
   · intro p hp
     rcases List.mem_append.mp hp with q | q
     · exact h p q
-    · simp at q; subst q; exact CallInv_new cfg s.now plan
+    · simp at q; subst q; exact CallInv_new cfg s.now plan warm
 
 theorem stepS_inv {cfg : Cfg} {s : State} (op : Op) (hmax : 1 ≤ cfg.max) (h : Inv cfg s) :
     Inv cfg (stepS cfg s op) := by
   cases op with
-  | arrive c plan => exact arriveS_inv c plan h
+  | arrive c plan warm => exact arriveS_inv c plan warm h
   | poll c => exact pollS_inv c hmax h
   | drop c => exact dropS_inv c h
   | adv ms order => exact advS_inv ms order h
@@ -924,7 +1143,7 @@ theorem inv_reachable (cfg : Cfg) (hmax : 1 ≤ cfg.max) (ops : List Op) : Inv c
 /-- newest-first index form of `SpacedT`: position `j` holds attempt number `l.length - 1 - j` -/
 theorem SpacedT_index (cfg : Cfg) : ∀ (l : List Nat), SpacedT cfg l → ∀ j, j + 1 < l.length →
     if cfg.delay 1 = 0 then l.getD j 0 = l.getD (j + 1) 0
-    else l.getD (j + 1) 0 + cfg.delay (l.length - 1 - j) ≤ l.getD j 0
+    else l.getD (j + 1) 0 * 1000 + cfg.delay (l.length - 1 - j) ≤ l.getD j 0 * 1000
   | [], _, j, hj => by simp at hj
   | [_], _, j, hj => by simp at hj
   | b :: a :: tl, h, j, hj => by
@@ -945,7 +1164,7 @@ def startsAsc (cl : Call) : List Nat := (starts cl).reverse
 
 theorem spaced_asc (cfg : Cfg) (l : List Nat) (h : SpacedT cfg l) (n : Nat) (hn : n + 1 < l.length) :
     if cfg.delay 1 = 0 then l.reverse.getD (n + 1) 0 = l.reverse.getD n 0
-    else l.reverse.getD n 0 + cfg.delay (n + 1) ≤ l.reverse.getD (n + 1) 0 := by
+    else l.reverse.getD n 0 * 1000 + cfg.delay (n + 1) ≤ l.reverse.getD (n + 1) 0 * 1000 := by
   have key := SpacedT_index cfg l h (l.length - 2 - n) (by omega)
   have e1 : l.reverse.getD (n + 1) 0 = l.getD (l.length - 2 - n) 0 := by
     simp only [List.getD_eq_getElem?_getD]
@@ -1123,12 +1342,6 @@ theorem pollCall_first_ok {cfg : Cfg} {now : Nat} (c : Nat) {w : W} (h : CallInv
 
 /-! ## a finished call never starts anything (one step, any state) -/
 
-theorem finishCall_result (now k c : Nat) (cl : Call) : (finishCall now k c cl).1.result = cl.result := by
-  rcases finishCall_cases now k c cl with he | ⟨pre, a, post, _, _, _, _, _, he⟩
-  · rw [he]
-  · have : (finishCall now k c cl).1 = finMove now cl pre a post := by rw [he]; rfl
-    rw [this, finMove_result]
-
 /-- request `c` still has the phase, the start instants and the result of `cl` -/
 def Same (c : Nat) (cl : Call) (s : State) : Prop :=
   ∃ cl', lookup s.calls c = some cl' ∧ cl'.phase = cl.phase ∧ starts cl' = starts cl ∧ cl'.result = cl.result
@@ -1141,11 +1354,45 @@ theorem Same_finishOne {c : Nat} {cl : Call} {s : State} (k : Nat) (h : Same c c
   show lookup (s.calls.map (fun p => (p.1, (finishCall s.now k p.1 p.2).1))) c = _
   rw [lookup_map_snd s.calls (fun c cl => (finishCall s.now k c cl).1) c, h1]; rfl
 
-theorem Same_foldl_finishOne {c : Nat} {cl : Call} (ks : List Nat) :
-    ∀ s : State, Same c cl s → Same c cl (ks.foldl finishOne s) := by
+/-- phase, start instants and result of a call are untouched by a readiness step, whatever the state -/
+theorem readyCall_same (now c i : Nat) (w : W) :
+    (readyCall now c i w).cl.phase = w.cl.phase ∧ starts (readyCall now c i w).cl = starts w.cl ∧
+    (readyCall now c i w).cl.result = w.cl.result := by
+  rcases readyCall_cases now c i w with he | ⟨pre, a, post, a', hatt, _, _, _, hs, _, _, _, he⟩
+  · rw [he]; exact ⟨rfl, rfl, rfl⟩
+  · have hst := starts_swap (cl := w.cl) (a' := a') hatt hs
+    rcases he with ⟨he, _⟩ | ⟨he, _⟩
+    · rw [he]; exact ⟨rfl, hst, rfl⟩
+    · rw [he]; exact ⟨by rw [finishCall_phase], by rw [finishCall_starts, hst], by rw [finishCall_result]⟩
+
+theorem Same_readyOne {c : Nat} {cl : Call} {s : State} (c' i : Nat) (h : Same c cl s) :
+    Same c cl (readyOne s c' i) := by
+  unfold readyOne
+  split
+  · exact h
+  · rename_i cl0 hl0
+    obtain ⟨cl', h1, h2, h3, h4⟩ := h
+    by_cases hc : c = c'
+    · subst hc
+      rw [h1] at hl0; cases hl0
+      obtain ⟨r1, r2, r3⟩ := readyCall_same s.now c i { cl := cl0, serial := s.serial }
+      refine ⟨(readyCall s.now c i { cl := cl0, serial := s.serial }).cl,
+        by show lookup (setCall s.calls c _) c = _; rw [lookup_setCall, h1]; simp, ?_, ?_, ?_⟩
+      · rw [r1]; exact h2
+      · rw [r2]; exact h3
+      · rw [r3]; exact h4
+    · exact ⟨cl', by show lookup (setCall s.calls c' _) c = _; rw [lookup_setCall, if_neg hc, h1], h2, h3, h4⟩
+
+theorem Same_foldl_fireOne {c : Nat} {cl : Call} (ks : List Fire) :
+    ∀ s : State, Same c cl s → Same c cl (ks.foldl fireOne s) := by
   induction ks with
   | nil => intro s h; exact h
-  | cons k tl ih => intro s h; exact ih _ (Same_finishOne k h)
+  | cons k tl ih =>
+    intro s h
+    apply ih
+    cases k with
+    | done k => exact Same_finishOne k h
+    | rdy c' i => exact Same_readyOne c' i h
 
 theorem pollCall_finished (cfg : Cfg) (now c : Nat) (w : W)
     (hf : w.cl.phase = .done ∨ w.cl.phase = .dropped) : pollCall cfg now c w = w := by
@@ -1157,8 +1404,8 @@ theorem stepS_frozen (cfg : Cfg) (s : State) (op : Op) (c : Nat) (cl : Call)
     Same c cl (stepS cfg s op) := by
   have h0 : Same c cl s := ⟨cl, h, rfl, rfl, rfl⟩
   cases op with
-  | arrive c' plan =>
-    show Same c cl (arriveS s c' plan)
+  | arrive c' plan warm =>
+    show Same c cl (arriveS s c' plan warm)
     unfold arriveS
     split
     · exact h0
@@ -1194,20 +1441,13 @@ theorem stepS_frozen (cfg : Cfg) (s : State) (op : Op) (c : Nat) (cl : Call)
     unfold advS
     dsimp only
     split
-    · exact Same_foldl_finishOne _ _ h0
-    · exact Same_foldl_finishOne _ _ h0
+    · exact Same_foldl_fireOne _ _ h0
+    · exact Same_foldl_fireOne _ _ h0
 
 /-! ## the attempts of a request are exactly its `inner_call` events in the log -/
 
-def callOf (c : Nat) : Ev → Option Nat
-  | .innerCall c' k => if c' = c then some k else none
-  | _ => none
-
-/-- serials of the `inner_call c _` events of a log, in order -/
-def callsOf (c : Nat) (log : List Ev) : List Nat := log.filterMap (callOf c)
-
-/-- serials of the attempts of a request, in start order -/
-def serialsAsc (cl : Call) : List Nat := (cl.attempts.map (·.k)).reverse
+/-- serials of the attempts of a request that have called the inner service, by attempt number -/
+def serialsAsc (cl : Call) : List Nat := ((cl.attempts.filter isCalled).map (·.k)).reverse
 
 theorem callsOf_append (c : Nat) (a b : List Ev) : callsOf c (a ++ b) = callsOf c a ++ callsOf c b := by
   simp [callsOf, List.filterMap_append]
@@ -1220,7 +1460,10 @@ theorem finishCall_serials (now k c : Nat) (cl : Call) : serialsAsc (finishCall 
   rcases finishCall_cases now k c cl with he | ⟨pre, a, post, hatt, _, _, _, _, he⟩
   · rw [he]
   · have : (finishCall now k c cl).1 = finMove now cl pre a post := by rw [he]; rfl
-    rw [this]; simp [serialsAsc, finMove_attempts, hatt]
+    rw [this]
+    have hc : isCalled { a with fin := some now } = isCalled a := rfl
+    simp only [serialsAsc, finMove_attempts, hatt, List.filter_append, List.filter_cons, hc]
+    split <;> simp
 
 theorem finishCall_evs (now k c c' : Nat) (cl : Call) : callsOf c' (finishCall now k c cl).2 = [] := by
   rcases finishCall_cases now k c cl with he | ⟨pre, a, post, _, _, _, _, _, he⟩
@@ -1231,25 +1474,25 @@ theorem finishCall_evs (now k c c' : Nat) (cl : Call) : callsOf c' (finishCall n
 def WL (c : Nat) (base : List Nat) (w : W) : Prop :=
   (∀ c', c' ≠ c → callsOf c' w.evs = []) ∧ serialsAsc w.cl = base ++ callsOf c w.evs
 
-theorem WL_startAttempt {now c : Nat} {base : List Nat} {w : W} (h : WL c base w) : WL c base (startAttempt now c w) := by
+theorem WL_callAttempt {now c : Nat} {base : List Nat} {w : W} (h : WL c base w) : WL c base (callAttempt now c w) := by
   obtain ⟨h1, h2⟩ := h
   have hpush : serialsAsc (pushAttempt now w).cl = serialsAsc w.cl ++ [w.serial] := by
-    simp [serialsAsc, pushAttempt]
-  have hcl : serialsAsc (startAttempt now c w).cl = serialsAsc w.cl ++ [w.serial] := by
-    rw [startAttempt_cl]; split
+    simp [serialsAsc, pushAttempt, isCalled]
+  have hcl : serialsAsc (callAttempt now c w).cl = serialsAsc w.cl ++ [w.serial] := by
+    rw [callAttempt_cl]; split
     · rw [finishCall_serials, hpush]
     · exact hpush
-  have hev : ∀ c', callsOf c' (startAttempt now c w).evs
+  have hev : ∀ c', callsOf c' (callAttempt now c w).evs
       = callsOf c' w.evs ++ (if c = c' then [w.serial] else []) := by
     intro c'
-    unfold startAttempt
+    unfold callAttempt
     dsimp only
     rw [callsOf_append, callsOf_append]
     have : callsOf c' [Ev.innerCall c w.serial] = if c = c' then [w.serial] else [] := by
       simp only [callsOf, List.filterMap_cons, callOf, List.filterMap_nil]
       split <;> simp_all
     rw [this]
-    have hfin : callsOf c' (if (w.cl.plan.getD w.cl.attempts.length ⟨0, .ok⟩).lat = 0
+    have hfin : callsOf c' (if (w.cl.plan.getD (nCalled w.cl) ⟨0, .ok⟩).lat = 0
         then finishCall now w.serial c (pushAttempt now w).cl else ((pushAttempt now w).cl, [])).2 = [] := by
       split
       · exact finishCall_evs ..
@@ -1261,6 +1504,23 @@ theorem WL_startAttempt {now c : Nat} {base : List Nat} {w : W} (h : WL c base w
     have : ¬ c = c' := fun e => hc e.symm
     simp [this]
   · rw [hcl, hev c, h2]; simp
+
+theorem WL_evs {c : Nat} {base : List Nat} {w : W} (h : WL c base w) (evs : List Ev)
+    (he : ∀ c', callsOf c' evs = []) : WL c base { w with evs := w.evs ++ evs } := by
+  constructor
+  · intro c' hc; show callsOf c' (w.evs ++ evs) = []; rw [callsOf_append, h.1 c' hc, he c']; rfl
+  · show serialsAsc w.cl = base ++ callsOf c (w.evs ++ evs)
+    rw [callsOf_append, he c, List.append_nil]; exact h.2
+
+theorem WL_startAttempt {now c : Nat} {base : List Nat} {w : W} (h : WL c base w) : WL c base (startAttempt now c w) := by
+  rcases startAttempt_cases now c w with ⟨evs, he, hn⟩ | ⟨wt, e, hwt, he⟩
+  · rw [he]; exact WL_callAttempt (WL_evs h evs hn)
+  · rw [he]
+    have h' := WL_evs h [Ev.raw e] (fun _ => rfl)
+    refine ⟨h'.1, ?_⟩
+    have : serialsAsc (pushWaiting now wt { w with evs := w.evs ++ [Ev.raw e] }).cl = serialsAsc w.cl := by
+      simp [serialsAsc, pushWaiting, isCalled, hwt]
+    rw [this]; exact h'.2
 
 theorem recvLat_attempts (cfg : Cfg) (now c : Nat) : ∀ (msgs : List Attempt) (cl : Call),
     (recvLat cfg now c msgs cl).1.attempts = cl.attempts ∧
@@ -1349,11 +1609,24 @@ theorem WL_pollCall {cfg : Cfg} {now c : Nat} {base : List Nat} {w : W} (h : WL 
       rw [callsOf_append, r2, List.append_nil, ← h.2]; simp [serialsAsc, r1]
   · exact h
 
-/-- for every request id: its `inner_call` events in the log = its attempts, in start order -/
-def LogInv (s : State) : Prop :=
-  ∀ c, callsOf c s.log = match lookup s.calls c with
-    | some cl => serialsAsc cl
-    | none => []
+/-- the serials a request's record accounts for -/
+def serialsOf (calls : List (Nat × Call)) (c : Nat) : List Nat :=
+  match lookup calls c with
+  | some cl => serialsAsc cl
+  | none => []
+
+/-- for every request id: its `inner_call` events in the log are exactly (as a multiset — with
+readiness plans the calls need not come in attempt order) the serials of its attempts that have
+called the inner service -/
+def LogInv (s : State) : Prop := ∀ c, (callsOf c s.log).Perm (serialsOf s.calls c)
+
+theorem serialsOf_setCall (calls : List (Nat × Call)) (c' c : Nat) (cl v : Call) (hl : lookup calls c' = some cl) :
+    serialsOf (setCall calls c' v) c = if c = c' then serialsAsc v else serialsOf calls c := by
+  unfold serialsOf
+  rw [lookup_setCall]
+  by_cases hc : c = c'
+  · subst hc; rw [if_pos rfl, if_pos rfl, hl]; rfl
+  · rw [if_neg hc, if_neg hc]
 
 theorem LogInv_finishOne {s : State} (k : Nat) (h : LogInv s) : LogInv (finishOne s k) := by
   intro c
@@ -1364,41 +1637,97 @@ theorem LogInv_finishOne {s : State} (k : Nat) (h : LogInv s) : LogInv (finishOn
     have := finishCall_evs s.now k p.1 c p.2
     unfold callsOf at this
     exact List.filterMap_eq_nil_iff.mp this e hp
-  show callsOf c (s.log ++ _) = match lookup (s.calls.map (fun p => (p.1, (finishCall s.now k p.1 p.2).1))) c with
-    | some cl => serialsAsc cl
-    | none => []
-  rw [callsOf_append, hev, List.append_nil, h c,
-    lookup_map_snd s.calls (fun c cl => (finishCall s.now k c cl).1) c]
-  cases lookup s.calls c with
-  | none => rfl
-  | some cl => simp [finishCall_serials]
+  show (callsOf c (s.log ++ _)).Perm (serialsOf (s.calls.map (fun p => (p.1, (finishCall s.now k p.1 p.2).1))) c)
+  have hs : serialsOf (s.calls.map (fun p => (p.1, (finishCall s.now k p.1 p.2).1))) c = serialsOf s.calls c := by
+    unfold serialsOf
+    rw [lookup_map_snd s.calls (fun c cl => (finishCall s.now k c cl).1) c]
+    cases lookup s.calls c with
+    | none => rfl
+    | some cl => simp [finishCall_serials]
+  rw [callsOf_append, hev, List.append_nil, hs]
+  exact h c
 
-theorem LogInv_foldl_finishOne (ks : List Nat) : ∀ s : State, LogInv s → LogInv (ks.foldl finishOne s) := by
+/-- a readiness step: one more `inner_call` of this request, one more called attempt -/
+theorem readyCall_serials (now c i : Nat) (w : W) :
+    (readyCall now c i w = w) ∨
+    ((serialsAsc (readyCall now c i w).cl).Perm (serialsAsc w.cl ++ [w.serial]) ∧
+      ∀ c', callsOf c' (readyCall now c i w).evs = callsOf c' w.evs ++ (if c = c' then [w.serial] else [])) := by
+  rcases readyCall_cases now c i w with he | ⟨pre, a, post, a', hatt, _, hw, _, _, hw', hk, _, he⟩
+  · left; exact he
+  · right
+    have hca : isCalled a = false := by simp [isCalled, hw]
+    have hca' : isCalled a' = true := by simp [isCalled, hw']
+    have hperm : (serialsAsc { w.cl with attempts := pre ++ a' :: post }).Perm (serialsAsc w.cl ++ [w.serial]) := by
+      simp only [serialsAsc, hatt, List.filter_append, List.filter_cons, hca, hca', if_true,
+        Bool.false_eq_true, if_false]
+      simp only [List.map_append, List.map_cons, List.reverse_append, List.reverse_cons, hk]
+      simp only [List.append_assoc]
+      exact List.Perm.append_left _ List.perm_append_comm
+    have hcall : ∀ c', callsOf c' [Ev.innerCall c w.serial] = if c = c' then [w.serial] else [] := by
+      intro c'
+      simp only [callsOf, List.filterMap_cons, callOf, List.filterMap_nil]
+      split <;> simp_all
+    rcases he with ⟨he1, he2⟩ | ⟨he1, he2⟩
+    · refine ⟨by rw [he1]; exact hperm, ?_⟩
+      intro c'; rw [he2, callsOf_append, hcall]
+    · refine ⟨by rw [he1, finishCall_serials]; exact hperm, ?_⟩
+      intro c'; rw [he2, callsOf_append, callsOf_append, hcall, finishCall_evs, List.append_nil]
+
+theorem LogInv_readyOne {s : State} (c' i : Nat) (h : LogInv s) : LogInv (readyOne s c' i) := by
+  unfold readyOne
+  split
+  · exact h
+  · rename_i cl hl
+    rcases readyCall_serials s.now c' i { cl := cl, serial := s.serial } with he | ⟨hp, hev⟩
+    · rw [he]
+      intro c
+      show (callsOf c (s.log ++ [])).Perm (serialsOf (setCall s.calls c' cl) c)
+      rw [List.append_nil, serialsOf_setCall _ _ _ _ _ hl]
+      by_cases hc : c = c'
+      · subst hc; rw [if_pos rfl]; have := h c; unfold serialsOf at this; rw [hl] at this; exact this
+      · rw [if_neg hc]; exact h c
+    · intro c
+      show (callsOf c (s.log ++ _)).Perm (serialsOf (setCall s.calls c' _) c)
+      rw [callsOf_append, serialsOf_setCall _ _ _ _ _ hl, hev c]
+      by_cases hc : c = c'
+      · subst hc
+        rw [if_pos rfl, if_pos rfl]
+        have := h c; unfold serialsOf at this; rw [hl] at this
+        exact (List.Perm.append_right _ this).trans hp.symm
+      · have hc' : ¬ c' = c := fun e => hc e.symm
+        rw [if_neg hc, if_neg hc']
+        show (callsOf c s.log ++ ([] ++ [])).Perm _
+        simpa using h c
+
+theorem LogInv_foldl_fireOne (ks : List Fire) : ∀ s : State, LogInv s → LogInv (ks.foldl fireOne s) := by
   induction ks with
   | nil => intro s h; exact h
-  | cons k tl ih => intro s h; exact ih _ (LogInv_finishOne k h)
+  | cons k tl ih =>
+    intro s h
+    apply ih
+    cases k with
+    | done k => exact LogInv_finishOne k h
+    | rdy c i => exact LogInv_readyOne c i h
 
 theorem LogInv_stepS (cfg : Cfg) {s : State} (op : Op) (h : LogInv s) : LogInv (stepS cfg s op) := by
   cases op with
-  | arrive c' plan =>
-    show LogInv (arriveS s c' plan)
+  | arrive c' plan warm =>
+    show LogInv (arriveS s c' plan warm)
     unfold arriveS
     split
     · exact h
     · rename_i hn
       intro c
       have hc := h c
-      show callsOf c s.log = match lookup (s.calls ++ [(c', { plan := plan })]) c with
-        | some cl => serialsAsc cl
-        | none => []
+      show (callsOf c s.log).Perm (serialsOf (s.calls ++ [(c', { plan := plan, warm := warm })]) c)
+      unfold serialsOf at hc ⊢
       cases hl : lookup s.calls c with
       | some cl => rw [lookup_append_some hl]; rw [hl] at hc; exact hc
       | none =>
         rw [lookup_append_none hl, lookup_cons]; rw [hl] at hc
-        rw [hc]
         by_cases hcc : c' = c
-        · rw [if_pos hcc]; rfl
-        · rw [if_neg hcc]; rfl
+        · rw [if_pos hcc]; exact hc
+        · rw [if_neg hcc]; exact hc
   | poll c' =>
     show LogInv (pollS cfg s c')
     unfold pollS
@@ -1408,15 +1737,15 @@ theorem LogInv_stepS (cfg : Cfg) {s : State} (op : Op) (h : LogInv s) : LogInv (
       have hw : WL c' (serialsAsc cl) (pollCall cfg s.now c' { cl := cl, serial := s.serial }) :=
         WL_pollCall ⟨fun _ _ => rfl, by simp [callsOf]⟩
       intro c
-      show callsOf c (s.log ++ _) = match lookup (setCall s.calls c' _) c with
-        | some cl => serialsAsc cl
-        | none => []
-      rw [callsOf_append, lookup_setCall]
+      show (callsOf c (s.log ++ _)).Perm (serialsOf (setCall s.calls c' _) c)
+      rw [callsOf_append, serialsOf_setCall _ _ _ _ _ hl]
       by_cases hc : c = c'
       · subst hc
         have hcc := h c
+        unfold serialsOf at hcc
         rw [hl] at hcc
-        rw [if_pos rfl, hl, hcc, ← hw.2]; rfl
+        rw [if_pos rfl, hw.2]
+        exact List.Perm.append_right _ hcc
       · rw [if_neg hc, hw.1 c hc, List.append_nil]; exact h c
   | drop c' =>
     show LogInv (dropS s c')
@@ -1425,34 +1754,33 @@ theorem LogInv_stepS (cfg : Cfg) {s : State} (op : Op) (h : LogInv s) : LogInv (
     · exact h
     · rename_i cl hl
       intro c
-      show callsOf c s.log = match lookup (setCall s.calls c' _) c with
-        | some cl => serialsAsc cl
-        | none => []
-      rw [lookup_setCall]
+      show (callsOf c s.log).Perm (serialsOf (setCall s.calls c' _) c)
+      rw [serialsOf_setCall _ _ _ _ _ hl]
       by_cases hc : c = c'
       · subst hc
         have hcc := h c
+        unfold serialsOf at hcc
         rw [hl] at hcc
-        rw [if_pos rfl, hl, hcc]
-        show serialsAsc cl = serialsAsc (dropCall cl)
-        unfold dropCall; split <;> rfl
+        rw [if_pos rfl]
+        have : serialsAsc (dropCall cl) = serialsAsc cl := by unfold dropCall; split <;> rfl
+        rw [this]; exact hcc
       · rw [if_neg hc]; exact h c
   | adv ms order =>
     show LogInv (advS s ms order)
     unfold advS
     dsimp only
     split
-    · exact LogInv_foldl_finishOne _ _ h
-    · apply LogInv_foldl_finishOne
+    · exact LogInv_foldl_fireOne _ _ h
+    · apply LogInv_foldl_fireOne
       intro c
-      show callsOf c (s.log ++ [Ev.raw "choice-not-allowed"]) = _
+      show (callsOf c (s.log ++ [Ev.raw "choice-not-allowed"])).Perm _
       rw [callsOf_append]
       have : callsOf c [Ev.raw "choice-not-allowed"] = [] := rfl
       rw [this, List.append_nil]; exact h c
 
 theorem loginv_reachable (cfg : Cfg) (ops : List Op) : LogInv (run cfg ops) := by
   unfold run
-  suffices ∀ s : State, LogInv s → LogInv (ops.foldl (stepS cfg) s) from this init (fun _ => rfl)
+  suffices ∀ s : State, LogInv s → LogInv (ops.foldl (stepS cfg) s) from this init (fun _ => List.Perm.refl _)
   induction ops with
   | nil => intro s h; exact h
   | cons op tl ih => intro s h; exact ih _ (LogInv_stepS cfg op h)
@@ -1510,16 +1838,27 @@ theorem keys_finishOne (s : State) (k : Nat) : keys (finishOne s k).calls = keys
   unfold keys finishOne
   simp [List.map_map, Function.comp]
 
-theorem keys_foldl_finishOne (ks : List Nat) : ∀ s : State, keys (ks.foldl finishOne s).calls = keys s.calls := by
+theorem keys_readyOne (s : State) (c i : Nat) : keys (readyOne s c i).calls = keys s.calls := by
+  unfold readyOne
+  split
+  · rfl
+  · exact keys_setCall ..
+
+theorem keys_fireOne (s : State) (f : Fire) : keys (fireOne s f).calls = keys s.calls := by
+  cases f with
+  | done k => exact keys_finishOne s k
+  | rdy c i => exact keys_readyOne s c i
+
+theorem keys_foldl_fireOne (ks : List Fire) : ∀ s : State, keys (ks.foldl fireOne s).calls = keys s.calls := by
   induction ks with
   | nil => intro s; rfl
-  | cons k tl ih => intro s; rw [List.foldl_cons, ih, keys_finishOne]
+  | cons k tl ih => intro s; rw [List.foldl_cons, ih, keys_fireOne]
 
 theorem keys_nodup_stepS (cfg : Cfg) {s : State} (op : Op) (h : (keys s.calls).Nodup) :
     (keys (stepS cfg s op).calls).Nodup := by
   cases op with
-  | arrive c plan =>
-    show (keys (arriveS s c plan).calls).Nodup
+  | arrive c plan warm =>
+    show (keys (arriveS s c plan warm).calls).Nodup
     unfold arriveS
     split
     · exact h
@@ -1555,8 +1894,8 @@ theorem keys_nodup_stepS (cfg : Cfg) {s : State} (op : Op) (h : (keys s.calls).N
     unfold advS
     dsimp only
     split
-    · rw [keys_foldl_finishOne]; exact h
-    · rw [keys_foldl_finishOne]; exact h
+    · rw [keys_foldl_fireOne]; exact h
+    · rw [keys_foldl_fireOne]; exact h
 
 theorem keys_nodup_reachable (cfg : Cfg) (ops : List Op) : (keys (run cfg ops).calls).Nodup := by
   unfold run
